@@ -161,25 +161,60 @@ def ob_regex_filter(ctx: Ctx) -> Outcome:
         fn = extract.find_def(GB, "GBNFCompiler._compile_regex")
     except ExtractionError as e:
         return Outcome.undecided("ast-shape", str(e))
-    # use-site shape: every `return <non-constant>` is dominated by the fullmatch guard on the same name
+    # use-site: every returned value is (a) a constant fragment (directly or through a name / module constant bound once
+    # to a string literal), (b) a name returned after `if not _GBNF_SAFE_FRAGMENT.fullmatch(name): return <constant>` in
+    # the same block, or (c) a conditional expression `name if FILTER.fullmatch(name) else <constant>` (either polarity).
     rets = [n for n in ast.walk(fn) if isinstance(n, ast.Return)]
-    dyn = [r for r in rets if not (isinstance(r.value, ast.Constant) and isinstance(r.value.value, str))]
     guards = [n for n in ast.walk(fn) if isinstance(n, ast.If) and "_GBNF_SAFE_FRAGMENT.fullmatch" in ast.unparse(n.test)]
+    consts_mod = consts
+
+    def const_text(e):
+        if isinstance(e, ast.Constant) and isinstance(e.value, str):
+            return e.value
+        if isinstance(e, ast.Name):
+            if isinstance(consts_mod.get(e.id), str):
+                return consts_mod[e.id]
+            asg = [n for n in ast.walk(fn) if isinstance(n, ast.Assign) and any(isinstance(t, ast.Name) and t.id == e.id for t in n.targets)]
+            if len(asg) == 1 and isinstance(asg[0].value, ast.Constant) and isinstance(asg[0].value.value, str):
+                return asg[0].value.value
+        return None
+
+    def filtered_name(e, r):
+        if not isinstance(e, ast.Name):
+            return False
+        for g in guards:
+            t = ast.unparse(g.test)
+            if t == f"not _GBNF_SAFE_FRAGMENT.fullmatch({e.id})" and isinstance(g.body[-1], ast.Return) and const_text(g.body[-1].value) is not None and g.lineno < r.lineno and _same_block(fn, g, r) and not _assigned_between(fn, e.id, g.lineno, r.lineno):
+                return True
+        return False
+
     wits = []
-    for r in dyn:
-        ok = False
-        if isinstance(r.value, ast.Name):
-            for g in guards:
-                t = ast.unparse(g.test)
-                if t == f"not _GBNF_SAFE_FRAGMENT.fullmatch({r.value.id})" and isinstance(g.body[-1], ast.Return) and isinstance(g.body[-1].value, ast.Constant) and g.lineno < r.lineno and _same_block(fn, g, r) and not _assigned_between(fn, r.value.id, g.lineno, r.lineno):
-                    ok = True
-        if not ok:
-            wits.append(Witness(what=f"_compile_regex L{r.lineno}: returns `{ast.unparse(r.value)[:60]}` without passing the _GBNF_SAFE_FRAGMENT filter", key=f"unfiltered-return", input=ast.unparse(r.value), replay={"runner": "props.C12:replay_regex_route", "args": {}}, confirmed=replay_regex_route()[0]))
+    shape_problems = []
+    fragments_to_check: list[tuple[int, str]] = []
     for r in rets:
-        if r not in dyn:
-            failed, text = replay_fragment(r.value.value)
-            if failed:
-                wits.append(Witness(what=f"_compile_regex L{r.lineno}: constant fall-back is not a well-formed fragment: {text}", key="constant-fallback", input=r.value.value, replay={"runner": "props.C12:replay_fragment", "args": {"fragment": r.value.value}}, confirmed=True))
+        v = r.value
+        ct = const_text(v)
+        if ct is not None:
+            fragments_to_check.append((r.lineno, ct))
+            continue
+        if filtered_name(v, r):
+            continue
+        if isinstance(v, ast.IfExp):
+            t = ast.unparse(v.test)
+            pos = isinstance(v.body, ast.Name) and t == f"_GBNF_SAFE_FRAGMENT.fullmatch({v.body.id})" and const_text(v.orelse) is not None
+            neg = isinstance(v.orelse, ast.Name) and t == f"not _GBNF_SAFE_FRAGMENT.fullmatch({v.orelse.id})" and const_text(v.body) is not None
+            if pos or neg:
+                fragments_to_check.append((r.lineno, const_text(v.orelse if pos else v.body)))
+                continue
+        shape_problems.append(f"_compile_regex L{r.lineno}: returns `{ast.unparse(v)[:60]}` and this contract cannot see that it passed the _GBNF_SAFE_FRAGMENT filter")
+    for ln, frag in fragments_to_check:
+        failed, text = replay_fragment(frag)
+        if failed:
+            wits.append(Witness(what=f"_compile_regex L{ln}: constant fall-back is not a well-formed fragment: {text}", key="constant-fallback", input=frag, replay={"runner": "props.C12:replay_fragment", "args": {"fragment": frag}}, confirmed=True))
+    if shape_problems and not wits:
+        from verif.common import shape_verdict
+
+        return shape_verdict("ast-shape", shape_problems, replay_regex_route, 3, {"runner": "props.C12:replay_regex_route", "args": {}})
     al = alphabet()
     try:
         got = A.dfa_regex(rx.pattern, rx.flags, None, al)
